@@ -563,7 +563,8 @@ def check_brew(tier, seed):
             cfgs.append(dict(seed=seed, est="perc", fmt=fmt, workers=w, consts={}))
     # (ii) cheaper estimator: the two brew constants one at a time and in random combination with the
     #      confidence constants; prediction chunks that hold all folds (n//2, n//4) are included
-    pred_sizes = S + [n // 2, n // 4]
+    # ... and sizes that leave a PARTIAL last chunk which still holds every fold (n//2+7, n//3+5)
+    pred_sizes = S + [n // 2, n // 4, n // 2 + 7, n // 3 + 5]
     sweeps = [{"pred": c} for c in pred_sizes] + [{"read": c} for c in S]
     pool_all = S + [5, 7, n // 2, n // 3]
     for _ in range(6 if tier == "quick" else 40):
